@@ -31,33 +31,51 @@ type udpClient struct {
 	got    map[int]bool
 	closed bool
 	rdone  bool
+	via    map[int]bool
 }
 
 func runUDPAssociationChurn() {
 	m := tunnelMesh(true, 4)
-	ex := m.Nodes[m.TunnelExit]
-	ex.Cfg.UDP.Enabled = true
-	destIP := net.ParseIP(fmt.Sprintf("10.%d.7.7", 100+m.TunnelExit)).To4()
+	// every exit of the chain relays UDP: one association may address
+	// destinations behind several exits (which all share the ingress' next hop
+	// in a chain); each datagram must leave the mesh at the exit whose route
+	// covers its destination
 	const destPort = 20999
 	served := map[[2]int]bool{}
-	m.Net.ServeUDP(&net.UDPAddr{IP: destIP, Port: destPort}, func(c *simnet.UDPConn, from *net.UDPAddr, data []byte) {
-		if len(data) < 8 || data[0] != 'U' {
-			simrt.Failf("tunnel-bytes-wrong", "endpoint received bytes that its counterpart did not send at that offset", "udp destination got a datagram that no client sent (%d bytes)", len(data))
-		}
-		t := int(data[1])<<8 | int(data[2])
-		k, bad := udpCheck('U', t, data)
-		if bad != "" {
-			simrt.Failf("tunnel-bytes-wrong", "endpoint received bytes that its counterpart did not send at that offset", "udp destination got a %s (client %d, k=%d)", bad, t, k)
-		}
-		if served[[2]int{t, k}] {
-			simrt.Failf("datagram-duplicated", "a datagram was delivered twice", "udp destination got datagram %d of client %d twice", k, t)
-		}
-		served[[2]int{t, k}] = true
-		c.WriteToUDP(udpPayload('D', t, k, 1+(k*37)%600), from)
-	})
+	destOf := map[int]net.IP{}
+	var exits []int
+	for j := 1; j < len(m.Nodes); j++ {
+		j := j
+		exn := m.Nodes[j]
+		exn.Cfg.UDP.Enabled = true
+		exits = append(exits, j)
+		destIP := net.ParseIP(fmt.Sprintf("10.%d.7.7", 100+j)).To4()
+		destOf[j] = destIP
+		m.Net.ServeUDP(&net.UDPAddr{IP: destIP, Port: destPort}, func(c *simnet.UDPConn, from *net.UDPAddr, data []byte) {
+			if len(data) < 8 || data[0] != 'U' {
+				simrt.Failf("tunnel-bytes-wrong", "endpoint received bytes that its counterpart did not send at that offset", "udp destination got a datagram that no client sent (%d bytes)", len(data))
+			}
+			t := int(data[1])<<8 | int(data[2])
+			k, bad := udpCheck('U', t, data)
+			if bad != "" {
+				simrt.Failf("tunnel-bytes-wrong", "endpoint received bytes that its counterpart did not send at that offset", "udp destination got a %s (client %d, k=%d)", bad, t, k)
+			}
+			if !from.IP.Equal(exn.IP) {
+				simrt.Failf("datagram-through-wrong-tunnel", "a datagram left the mesh through another tunnel's exit", "datagram %d of client %d for %s (behind %s, %s) was emitted from %s", k, t, destIP, exn.Name, exn.IP, from)
+			}
+			if served[[2]int{t, k}] {
+				simrt.Failf("datagram-duplicated", "a datagram was delivered twice", "udp destination got datagram %d of client %d twice", k, t)
+			}
+			served[[2]int{t, k}] = true
+			c.WriteToUDP(udpPayload('D', t, k, 1+(k*37)%600), from)
+		})
+	}
 	BootAndConverge(m)
 	nd := m.Nodes[0]
-	hdr := socks5.BuildUDPHeader(protocol.AddrTypeIPv4, destIP, uint16(destPort))
+	hdrs := map[int][]byte{}
+	for _, j := range exits {
+		hdrs[j] = socks5.BuildUDPHeader(protocol.AddrTypeIPv4, destOf[j], uint16(destPort))
+	}
 	var clients []*udpClient
 	live := func() []*udpClient {
 		var out []*udpClient
@@ -142,7 +160,18 @@ func runUDPAssociationChurn() {
 		default:
 			c := lv[simrt.Choose(len(lv), "udp-send-which")]
 			n := 1 + (c.sent*53)%900
-			pkt := append(append([]byte(nil), hdr...), udpPayload('U', c.id, c.sent, n)...)
+			via := m.TunnelExit
+			if simrt.Chance(1, 2, "udp-other-exit") {
+				via = exits[simrt.Choose(len(exits), "udp-via")]
+			}
+			if c.via == nil {
+				c.via = map[int]bool{}
+			}
+			c.via[via] = true
+			if len(c.via) > 1 {
+				simrt.Probe("udp_association_addresses_several_exits")
+			}
+			pkt := append(append([]byte(nil), hdrs[via]...), udpPayload('U', c.id, c.sent, n)...)
 			c.sent++
 			c.cs.WriteToUDP(pkt, c.assoc.LocalAddr())
 			simrt.Probe("udp_churn_send")
